@@ -578,6 +578,69 @@ class Driver:
                 return
             res.ok(cls, (encname, field, wit.get('canary')))
 
+    def pipe_conservation(self, r):
+        """a consumer which reads late and in odd bites: the queue is flushed by the real flush_write_queue() while the 64 KiB
+        pipe fills (partial writes, EAGAIN). What comes out of the pipe must be the queued records, whole and in order."""
+        import asyncio
+
+        res = self.res
+        procs = self.h.procs
+        loop = asyncio.new_event_loop()
+        try:
+            for encname in ('json6', 'text4'):
+                fp = self.h.fake[(id(procs), encname)]
+                fp.drain()
+                q = procs._write_queue[encname]
+                q.clear()
+                sk, nb, neg = self.sess(1)
+                self.h.nb = nb
+                recv_ap = {(int(a), int(s_)) for (a, s_), v in neg.addpath._receive.items() if v}
+                sess = {'asn4': sk['asn4'], 'addpath': recv_ap, 'ibgp': False}
+                want = []
+                tries = 0
+                while sum(map(len, want)) < 200000 and tries < 4000:
+                    tries += 1
+                    body, intent = gw.gen_update(r, sess, families=FAMS, rich=0.9)
+                    d = self.decode(2, body, neg)
+                    if d is None:
+                        continue
+                    msg, coll = d
+                    try:
+                        text = self.h.enc[encname].update(nb, 'receive', coll, b'', b'', neg)
+                    except Exception:  # noqa  (judged elsewhere)
+                        continue
+                    if not text:
+                        continue
+                    before = len(q)
+                    procs.write(encname, text, nb)
+                    want += list(q)[before:]
+                expected = b''.join(want)
+                got = b''
+                rounds = 0
+                stalled = r.randrange(3, 30)  # the consumer does not read at all for the first rounds: the pipe fills
+                while (q or len(got) < len(expected)) and rounds < 20000:
+                    rounds += 1
+                    loop.run_until_complete(procs.flush_write_queue())
+                    if rounds <= stalled:
+                        continue
+                    bite = r.choice([0, 1, 100, 4095, 4096, 4097, 65536, 1 << 20])
+                    if bite:
+                        try:
+                            got += os.read(fp.r, bite)
+                        except BlockingIOError:
+                            pass
+                wit = {'encoder': encname, 'records': len(want), 'octets': len(expected), 'rounds': rounds, 'stalled_rounds': stalled}
+                cls = f'pipe-conservation:{encname}'
+                if got != expected:
+                    i = next((k for k in range(min(len(got), len(expected))) if got[k] != expected[k]), min(len(got), len(expected)))
+                    kind = 'lost-or-stuck' if len(got) < len(expected) and expected.startswith(got) else 'reordered-or-interleaved'
+                    res.violation(f'C13/pipe-{kind}:{encname}', f'{len(want)} records queued ({len(expected)} octets), the pipe delivered {len(got)} octets, first difference at octet {i}', dict(wit, around=repr(got[max(0, i - 60) : i + 60]), expected_around=repr(expected[max(0, i - 60) : i + 60])), cls)
+                    continue
+                res.ok(cls, ('pipe', encname, len(want) // 10), n=len(want))
+                res.extra['pipe_conservation_octets'] = res.extra.get('pipe_conservation_octets', 0) + len(expected)
+        finally:
+            loop.close()
+
     def noninterference(self, r):
         sk, nb, neg = self.sess(1)  # asn4 / no add-path / extended next hop
         pairs = [(f, c) for f in sorted(H.FIELDS) for c in range(len(H.CANARIES))]
@@ -791,6 +854,10 @@ def run_shard(desc):
         sk, nb, neg = d.sess(5 if name == 'update:aggregator-and-as4-aggregator' else 1)  # as2/noap, asn4/noap
         if d.message(mtype, body, sk, nb, neg, name.split(':', 1)[1], {'src': 'repeated:' + name}, forms=('parsed', 'consolidate')) is None:
             res.count('repeated-case-refused:' + name)
+        # and on the other AS width: what one kind of peer has no reason to send the other kind may still send
+        sk, nb, neg = d.sess(1 if name == 'update:aggregator-and-as4-aggregator' else 5)
+        if d.message(mtype, body, sk, nb, neg, name.split(':', 1)[1], {'src': 'repeated-other-width:' + name}, forms=('parsed',)) is None:
+            res.count('repeated-case-refused-other-width:' + name)
 
     # ---- the RFC 7606 corruption catalogue of C08 (every attribute x malformation, on 2- and 4-byte sessions, the
     # 2-byte base carrying AS4_PATH and AS4_AGGREGATOR): what is treated as withdrawn / discarded still makes an event
@@ -848,6 +915,10 @@ def run_shard(desc):
     # ---- non-interference pairs
     d.noninterference(r)
 
+    # ---- a slow consumer on the helper pipe
+    if shard % 4 == 0:
+        d.pipe_conservation(r)
+
     # ---- informational: the local host name is interpolated into the envelope as is (not peer data)
     if shard == 0:
         real = socket.gethostname
@@ -896,6 +967,7 @@ REQUIRED_CLASSES = {
     + [f'{e}:{m}:none' for e in ('text6', 'text4') for m in ('negotiated', 'fsm', 'signal')]
     + [f'write:{e}' for e in ENCODERS]
     + [f'write-pipe:{e}' for e in ENCODERS]
+    + ['pipe-conservation:json6', 'pipe-conservation:text4']
     + [f'dispatch:{m}' for m in ('update', 'open', 'notification', 'refresh', 'operational')]
     + [f'{e}:open:hostname' for e in ENCODERS]
     + [f'{e}:notification:shutdown-communication' for e in ENCODERS]
